@@ -231,3 +231,27 @@ func init() {
 		Doc:    "(STATUS) producers of the replication status every gate reads: the SHOW SLAVE STATUS / SHOW REPLICA STATUS implementations of each interface method are the same code modulo renaming, trivial getters return the field they are named after, the state converter fills each field from the getter of the same name, column tags name their field",
 	})
 }
+
+// checkVersionSiblings: the two "is this at least 8.0.22" predicates are the same code. One selects the status statement,
+// the other switches the whole external-replication handling on (including stopping it on the old master before the freeze).
+func checkVersionSiblings(c *Check) {
+	p := c.p
+	ms := p.methodsOf("internal/mysql", "Version")
+	a, okA := ms["CheckIfVersionReplicaStatus"]
+	b, okB := ms["CheckIfExternalReplicationSupported"]
+	if !okA || !okB {
+		panic(AnchorError{"(*mysql.Version).CheckIf* predicates"})
+	}
+	ba, bb := p.normalisedBody(a), p.normalisedBody(b)
+	c.Req(ba == bb, "(*mysql.Version).CheckIfExternalReplicationSupported", p.Pos(b.decl.Pos()), "version:siblings", "the two version predicates (SHOW REPLICA STATUS available / external replication supported) encode the same boundary, 8.0.22 and everything newer including 8.4: a server that is asked with the modern statement also has its external channel managed — stopped on the old master before positions are collected", "replica-status: "+oneLine(ba)+" | external: "+oneLine(bb))
+	// and the boundary itself mentions all three components
+	for _, m := range []methodDecl{a, b} {
+		body := p.normalisedBody(m)
+		ok := strings.Contains(body, "MajorVersion") && strings.Contains(body, "MinorVersion") && strings.Contains(body, "PatchVersion")
+		c.Req(ok, "(*mysql.Version)."+m.decl.Name.Name, p.Pos(m.decl.Pos()), "version:components:"+m.decl.Name.Name, "the predicate looks at major, minor and patch version", oneLine(body))
+	}
+}
+
+func init() {
+	sharedRules = append(sharedRules, sharedRule{Suffix: "VERSIONS", Props: []string{"C01", "C10", "C17"}, Body: checkVersionSiblings, Doc: "(VERSIONS) the two server-version predicates are the same code and look at major, minor and patch"})
+}
